@@ -174,6 +174,17 @@ func hugeChunk(c Case) bool {
 			return true
 		}
 	}
+	// json streams: any number of ten or more digits in the TOC text can become a chunk or file size
+	run := 0
+	for i := 0; i < len(c.Raw); i++ {
+		if c.Raw[i] >= '0' && c.Raw[i] <= '9' {
+			if run++; run >= 10 {
+				return true
+			}
+		} else {
+			run = 0
+		}
+	}
 	return false
 }
 
